@@ -229,6 +229,31 @@ func observeAdmissionAndScheduler(s *subject, adm map[int]*admissionEnv, vm *res
 		_, errV = env.validator.ValidateCreate(ctx, m1)
 	}
 	_, errV0 := env.validator.ValidateCreate(ctx, s.pod.DeepCopy()) // validator alone, on the unmutated pod
+	// the same objects arriving as an UPDATE of a stored pod that differs only in its GPU annotations (kubectl
+	// annotate): the validating webhook must give the verdict it gives on CREATE
+	updSame := 1
+	{
+		uctx := admission.NewContextWithRequest(context.Background(), admission.Request{
+			AdmissionRequest: admissionv1.AdmissionRequest{Namespace: sim.Namespace, Operation: admissionv1.Update}})
+		strip := func(p *v1.Pod) *v1.Pod {
+			o := p.DeepCopy()
+			for _, k := range []string{constants.GpuFraction, constants.GpuMemory, constants.GpuFractionsNumDevices} {
+				delete(o.Annotations, k)
+			}
+			return o
+		}
+		_, errU0 := env.validator.ValidateUpdate(uctx, strip(s.pod), s.pod.DeepCopy())
+		if (errU0 == nil) != (errV0 == nil) {
+			updSame = 0
+		}
+		if errM1 == nil {
+			_, errU := env.validator.ValidateUpdate(uctx, strip(m1), m1.DeepCopy())
+			if (errU == nil) != (errV == nil) {
+				updSame = 0
+			}
+		}
+	}
+	o["a_update_same"] = updSame
 	s.admitted = errM1 == nil && errV == nil
 	o["a_mutate_ok"] = b2i(errM1 == nil)
 	o["a_validate_ok"] = b2i(errM1 == nil && errV == nil)
